@@ -1578,6 +1578,9 @@ func (ff *FuncFacts) assume(st *State, e ast.Expr, pol bool) *State {
 	}
 	if call, ok := e.(*ast.CallExpr); ok {
 		st = ff.predicateSummary(st, call, pol)
+		if !pol {
+			st = ff.containsFuncFalse(st, call)
+		}
 	}
 	if t := ff.term(e); t != nil {
 		if t.K == 'c' {
@@ -2157,6 +2160,23 @@ func (ff *FuncFacts) assign(x *ast.AssignStmt, st *State) *State {
 					st = st.add(mkFact(true, "eq", lt, rs))
 				}
 				st = ff.resultShape(st, lt, call)
+			}
+			// iface = <value of a concrete type that has no nil>: a non-nil interface
+			if lt.K == 'v' || lt.K == 'f' {
+				if lty := info.TypeOf(x.Lhs[i]); lty != nil {
+					if _, isIface := lty.Underlying().(*types.Interface); isIface {
+						if rty := info.TypeOf(x.Rhs[i]); rty != nil {
+							switch u := rty.Underlying().(type) {
+							case *types.Struct, *types.Array:
+								st = st.add(mkFact(false, "eq", lt, TNil()))
+							case *types.Basic:
+								if u.Kind() != types.UntypedNil && u.Kind() != types.UnsafePointer {
+									st = st.add(mkFact(false, "eq", lt, TNil()))
+								}
+							}
+						}
+					}
+				}
 			}
 			// err = ErrSomething: a package-level error value that is initialised
 			// non-nil and assigned nowhere else
@@ -2994,26 +3014,53 @@ func (ff *FuncFacts) refutes(b *cfg.Block, succ int, inP func(*Fact) bool) bool 
 	if cond == nil {
 		return false
 	}
-	atomsOf := func(es []ast.Expr, pol bool) ([]*Fact, bool) {
-		var out []*Fact
+	// atomsOf: for each expression the fact(s) equivalent to "e has value pol":
+	// a comparison or a boolean variable gives one fact; a call gives two
+	// equivalent spellings (the site result and, for a pure callee, the call
+	// term); what a callee's summary adds are consequences, not equivalents.
+	atomsOf := func(es []ast.Expr, pol bool) ([][]*Fact, bool) {
+		var out [][]*Fact
 		for _, e := range es {
+			q, ep := unparen(e), pol
+			for {
+				if u, ok := q.(*ast.UnaryExpr); ok && u.Op == token.NOT {
+					q, ep = unparen(u.X), !ep
+					continue
+				}
+				break
+			}
+			if call, ok := q.(*ast.CallExpr); ok {
+				if tv, isT := ff.info().Types[call.Fun]; !isT || !tv.IsType() {
+					alts := []*Fact{mkFact(ep, "true", &Term{K: 'r', Name: "res0", Pos: call.Lparen}, nil)}
+					if t := ff.term(call); t != nil && t.K != 'c' {
+						alts = append(alts, mkFact(ep, "true", t, nil))
+					}
+					out = append(out, alts)
+					continue
+				}
+			}
 			learnt := ff.assume(emptyState, e, pol)
 			if learnt == nil {
 				return nil, false
 			}
-			n := 0
+			var one []*Fact
 			for _, f := range learnt.m {
-				if f.Op == "true" && f.A.K == 'r' && len(learnt.m) > 1 {
-					continue // the site-result twin of a call condition
-				}
-				out = append(out, f)
-				n++
+				one = append(one, f)
 			}
-			if n != 1 {
+			if len(one) != 1 {
 				return nil, false
 			}
+			out = append(out, one)
 		}
 		return out, true
+	}
+	anyIn := func(alts []*Fact, pred func(*Fact) bool) bool {
+		for _, a := range alts {
+			if pred(a) {
+				return true
+			}
+		}
+		return false
 	}
 	// refutesExpr: does assuming e with polarity pol contradict the conjunction P?
 	var refutesExpr func(e ast.Expr, pol bool, depth int) bool
@@ -3048,10 +3095,10 @@ func (ff *FuncFacts) refutes(b *cfg.Block, succ int, inP func(*Fact) bool) bool 
 			// not all of the conjuncts hold: refutes P when every conjunct is an atom of P (or known to hold)
 			if as, ok := atomsOf(conjuncts(e), true); ok {
 				all, some := true, false
-				for _, a := range as {
-					if inP(a) {
+				for _, alts := range as {
+					if anyIn(alts, inP) {
 						some = true
-					} else if !ff.blockIn[b].Has(a.key) {
+					} else if !anyIn(alts, func(a *Fact) bool { return ff.blockIn[b].Has(a.key) }) {
 						all = false
 					}
 				}
@@ -3062,8 +3109,8 @@ func (ff *FuncFacts) refutes(b *cfg.Block, succ int, inP func(*Fact) bool) bool 
 		if isBin && be.Op == token.LOR && pol {
 			// one of the disjuncts holds: refutes P when each is the complement of an atom of P
 			if as, ok := atomsOf(disjuncts(e), true); ok && len(as) > 1 {
-				for _, a := range as {
-					if !inP(complement(a)) {
+				for _, alts := range as {
+					if !anyIn(alts, func(a *Fact) bool { return inP(complement(a)) }) {
 						return false
 					}
 				}
@@ -3073,7 +3120,7 @@ func (ff *FuncFacts) refutes(b *cfg.Block, succ int, inP func(*Fact) bool) bool 
 		}
 		// atomic condition
 		if as, ok := atomsOf([]ast.Expr{e}, pol); ok && len(as) == 1 {
-			return inP(complement(as[0]))
+			return anyIn(as[0], func(a *Fact) bool { return inP(complement(a)) })
 		}
 		return false
 	}
@@ -3768,4 +3815,99 @@ func (e *FactEngine) nonNilGlobal(g *types.Var) bool {
 		}
 	}
 	return e.nonNilGlobals[g]
+}
+
+// containsFuncFalse: slices.ContainsFunc(X, pred) returned false, with pred a
+// function literal (or a local bound once to one) of the form
+// `func(v T) bool { return E }`: E is false for every element of X.  The
+// facts are those of the range loop with an early return (forallFacts).
+func (ff *FuncFacts) containsFuncFalse(st *State, call *ast.CallExpr) *State {
+	if st == nil || len(call.Args) != 2 {
+		return st
+	}
+	fn, ok := typeutil.Callee(ff.info(), call).(*types.Func)
+	if !ok || fn.Pkg() == nil || fn.Pkg().Path() != "slices" || fn.Name() != "ContainsFunc" {
+		return st
+	}
+	info := ff.info()
+	var lit *ast.FuncLit
+	switch a := unparen(call.Args[1]).(type) {
+	case *ast.FuncLit:
+		lit = a
+	case *ast.Ident:
+		obj := info.Uses[a]
+		if obj == nil {
+			return st
+		}
+		n := 0
+		ast.Inspect(ff.fs.Root().Body(), func(m ast.Node) bool {
+			switch x := m.(type) {
+			case *ast.AssignStmt:
+				for i, l := range x.Lhs {
+					if id, isId := l.(*ast.Ident); isId && info.ObjectOf(id) == obj {
+						n++
+						if len(x.Rhs) == len(x.Lhs) {
+							lit, _ = unparen(x.Rhs[i]).(*ast.FuncLit)
+						}
+					}
+				}
+			case *ast.ValueSpec:
+				for i, id := range x.Names {
+					if info.ObjectOf(id) == obj {
+						n++
+						if len(x.Values) == len(x.Names) {
+							lit, _ = unparen(x.Values[i]).(*ast.FuncLit)
+						}
+					}
+				}
+			case *ast.UnaryExpr:
+				if id, isId := unparen(x.X).(*ast.Ident); isId && x.Op == token.AND && info.ObjectOf(id) == obj {
+					n += 2
+				}
+			}
+			return true
+		})
+		if n != 1 {
+			return st
+		}
+	}
+	if lit == nil || lit.Type.Params == nil || len(lit.Type.Params.List) != 1 || len(lit.Type.Params.List[0].Names) != 1 || len(lit.Body.List) != 1 {
+		return st
+	}
+	ret, ok := lit.Body.List[0].(*ast.ReturnStmt)
+	if !ok || len(ret.Results) != 1 {
+		return st
+	}
+	vobj := info.ObjectOf(lit.Type.Params.List[0].Names[0])
+	xt := ff.term(call.Args[0])
+	if vobj == nil || xt == nil {
+		return st
+	}
+	vs := TVar(vobj).String()
+	learnt := ff.assume(emptyState, ret.Results[0], false)
+	if learnt == nil {
+		return st
+	}
+	each := &Term{K: 'o', Name: "each", Args: []*Term{xt}}
+	var add []*Fact
+	for _, f := range learnt.m {
+		if f.Op == "imp" {
+			continue
+		}
+		hit := false
+		for _, t := range f.terms() {
+			if t.mentions(vs) {
+				hit = true
+			}
+		}
+		if !hit {
+			continue
+		}
+		var b *Term
+		if f.B != nil {
+			b = f.B.subst(vs, each)
+		}
+		add = append(add, mkFact(f.Pos, f.Op, f.A.subst(vs, each), b))
+	}
+	return st.with(add...)
 }
